@@ -142,6 +142,17 @@ func c11LongName(r *VRand, total int) string {
 	return strings.Join(parts, ".") + "." + c11Tlds[r.Intn(len(c11Tlds))]
 }
 
+func c11MixCase(r *VRand, p string) string {
+	b := []byte(p)
+	all := r.Chance(0.3)
+	for i := range b {
+		if b[i] >= 'a' && b[i] <= 'z' && (all || r.Bool()) {
+			b[i] -= 32
+		}
+	}
+	return string(b)
+}
+
 var c11LongSizes = []int{52, 60, 63, 64, 65, 70, 120, 127, 128, 129, 140, 250, 253, 254, 255, 256, 260, 1000, 4100}
 
 // mostly 52..260 bytes, now and then ~1 000 or ~4 100
@@ -412,6 +423,10 @@ func c11RunSession(st *VStream, stats *VStats, r *VRand, bitLen int, nsets int, 
 						stats.Inc("dm.pat.keyword_marker_oddity")
 					}
 				}
+				if r.Chance(0.08) {
+					p = c11MixCase(r, p)
+					stats.Inc("dm.pat.upper_case")
+				}
 				ss.kwPool = append(ss.kwPool, p)
 			case "regex":
 				p = c11Regexes[r.Intn(len(c11Regexes))]
@@ -439,6 +454,9 @@ func c11RunSession(st *VStream, stats *VStats, r *VRand, bitLen int, nsets int, 
 				case 6, 7:
 					p = c11LongName(r, c11LongSizes[r.Intn(len(c11LongSizes)-2)]) // long pattern (up to ~260 bytes)
 					stats.Inc("dm.pat.long")
+				case 8, 9, 10: // written with upper-case letters: means the same as its lower-case form
+					p = c11MixCase(r, p)
+					stats.Inc("dm.pat.upper_case")
 				}
 				if kind == "suffix" && strings.HasPrefix(p, ".") {
 					stats.Inc("dm.pat.suffix_with_leading_dot")
